@@ -156,6 +156,18 @@ def prefix_case(case):
     if worst:
         vs.append(viol(pre + f"|separation|N={worst[0]}", f"first {worst[0]} rows: minimum chord distance below the bound",
                        case, expected=worst[2], observed=worst[1]))
+    if fold:
+        # the half selection asked for every N on one polytope: must be the first N rows, for every N
+        for N in range(1, n + 1):
+            try:
+                h = np.asarray(poly.get_half_of_hypercube(N=N, projection=True), dtype=float)
+            except Exception as e:
+                vs.append(viol(pre + f"|half_N|N={N}", f"get_half_of_hypercube(N={N}) raised {type(e).__name__}: {str(e)[:80]}", case))
+                break
+            if h.shape != (N, 4) or not np.array_equal(h, A[:N]):
+                vs.append(viol(pre + f"|half_N|N={N}", f"get_half_of_hypercube(N={N}) is not the first {N} rows of the full selection",
+                               case))
+                break
     if fold and not all(canonical_half(q) for q in A):
         vs.append(viol(pre + "|hemisphere", "a row of the half selection is not canonical", case))
     return {"violations": vs, "N": n}
